@@ -182,7 +182,8 @@ def allowed(fault_class: str, state: str, fault: str, hold: int):
     if fault_class.startswith('unexpected:'):
         what = fault_class.split(':')[1]
         if state == 'ESTABLISHED' and what in ('update', 'keepalive', 'refresh'):
-            return (set(), True) if (hold or what != 'keepalive') else ({(2, 6), (5, 3), (5, 0)}, True)
+            # (a KEEPALIVE although the hold time is zero is no error RFC 4271 defines: the session goes on)
+            return set(), True
         if state == 'OPENCONFIRM' and what == 'keepalive':
             return set(), True
         if state in ('OPENSENT', 'CONNECT') and what == 'open':
@@ -191,13 +192,12 @@ def allowed(fault_class: str, state: str, fault: str, hold: int):
     if fault_class == 'notification':
         return set(), False
     if fault_class == 'hold-timer':
-        if hold == 0:
-            return set(), True
+        if hold == 0 and state not in ('OPENSENT', 'CONNECT'):
+            return set(), True   # (before the OPEN of the peer is read no hold time is negotiated: the open-wait timer runs whatever the configuration)
         if state == 'ESTABLISHED':
             return {(4, 0)}, True
-        if state in ('OPENSENT', 'CONNECT'):
-            return {(4, 0), (5, 1)}, True
-        return {(4, 0), (5, 2)}, True
+        # RFC 4271 8.2.2, HoldTimer_Expires in OpenSent / OpenConfirm: Hold Timer Expired (nothing unexpected was received)
+        return {(4, 0)}, True
     if fault_class in ('teardown', 'notification+teardown'):
         return {(6, s) for s in range(0, 10)}, True
     if fault_class == 'teardown-or-refused':
@@ -252,7 +252,8 @@ class Env(c05.Env):
                 # the remote stays silent: the well-behaved KEEPALIVE sender is switched off from now on
                 self.hold_silenced = True
                 self.sent_ka.discard(s.index)
-                w.advance(self.hold + 3.5)
+                # (while ExaBGP waits for the OPEN of the peer the timer is exabgp.bgp.openwait, 60 s by default, not the hold time)
+                w.advance(self.hold + 3.5 if self.fsm() not in ('OPENSENT', 'CONNECT') else 64.0)
             elif cls in ('teardown', 'teardown-or-refused'):
                 w.api_write(b'peer * teardown %s\n' % arg.rsplit('-', 1)[1].encode())
             elif cls == 'notification+teardown':
